@@ -1,13 +1,17 @@
 ----------------------------- MODULE MCScanner -----------------------------
 (* Model-checking instance of Scanner: entry i is an X.509 entry when i is even and a precertificate entry when  *)
-(* odd; entry classes cycle nonfatal / clean / fatal; the matcher wants every entry whose index is not 1 modulo  *)
-(* 4; both matcher types are explored (so wanted entries that a Matcher-type matcher is never asked about occur). *)
+(* odd; entry classes (ScanSelect.tla) cycle readable with defects of two layers at once / clean / fatal in the  *)
+(* company of a tolerable defect / one tolerable defect; the matcher wants every entry whose index is not 1      *)
+(* modulo 4; both matcher types are explored (so wanted entries that a Matcher-type matcher is never asked about *)
+(* occur).                                                                                                      *)
 EXTENDS Scanner
 
 CONSTANTS Batches, NW, InitSizes
 
 MCKind(i) == IF i % 2 = 0 THEN "x509" ELSE "precert"
-MCClass(i) == CASE i % 3 = 0 -> "nonfatal" [] i % 3 = 1 -> "clean" [] OTHER -> "fatal"
+MCClass(i) == CASE i % 4 = 0 -> "der+field" [] i % 4 = 1 -> "clean" [] i % 4 = 2 -> "fatal+der" [] OTHER -> "field"
+ASSUME \A i \in 0..8 : MCClass(i) \in Classes
+ASSUME ClassNamesLaw /\ TolerableComposes /\ AskedLaw
 MCWants(i) == i % 4 # 1
 
 EffEnd(c) == IF c.end = 0 \/ c.end > c.init THEN c.init ELSE c.end
